@@ -170,7 +170,7 @@ pub fn c11() -> C11 {
         engine: EngineProp {
             id: "C11",
             oracles: Oracles { silence: true, converge: true, ..Default::default() },
-            profiles: vec![(Profile::Lossy, 12000, 400_000), (Profile::Related, 8000, 250_000), (Profile::Tracked, 5000, 150_000), (Profile::Vis, 4000, 100_000), (Profile::Split, 16000, 500_000)],
+            profiles: vec![(Profile::Lossy, 15000, 400_000), (Profile::Related, 10000, 250_000), (Profile::Tracked, 8000, 150_000), (Profile::Vis, 5000, 100_000), (Profile::Split, 50000, 1_000_000)],
             nontrivial: |s: &Sim| s.flags.contains("mut_dropped") || s.flags.contains("ack_delayed") || s.flags.contains("junk_ack"),
             rule: "",
             assumptions: vec![],
@@ -183,7 +183,7 @@ impl Prop for C11 {
         "C11"
     }
     fn units(&self, tier: Tier) -> Vec<Unit> {
-        let mut v = vec![Unit::new("resend", if tier == Tier::Quick { 12_000 } else { 400_000 })];
+        let mut v = vec![Unit::new("resend", if tier == Tier::Quick { 20_000 } else { 400_000 })];
         v.extend(self.engine.units(tier));
         v
     }
